@@ -62,7 +62,7 @@ func VH_History(a []int) {
 		x := vRevision(set, vVariants[i], 0)
 		x.Revision = sym.Int64("rev.num")
 		sym.Assume(sym.And(x.Revision >= 0, x.Revision < 1<<40))
-		// the update revision is the newest one of the set (no rollback in this harness)
+		// unless opts bit2 is set the update revision is the newest one of the set (no rollback)
 		x.Name = fmt.Sprintf("%s-r%d", vSetName, i)
 		x.UID = types.UID(fmt.Sprintf("uid-rev-%d", i))
 		h := &vHistRev{rev: x, name: x.Name, labels: true, num: x.Revision}
@@ -90,8 +90,14 @@ func VH_History(a []int) {
 		}
 		revs = append(revs, h)
 	}
-	for _, h := range revs[1:] {
-		sym.Assume(h.num < upd.Revision)
+	if opts&4 == 0 {
+		for _, h := range revs[1:] {
+			sym.Assume(h.num < upd.Revision)
+		}
+	} else {
+		// a rollback: the stored revision that equals the template may be older than the others
+		// (the controller then re-uses and renumbers it)
+		sym.Cover("the revision of the template may be an old one")
 	}
 	for _, h := range revs {
 		w.apiRevs = append(w.apiRevs, h.rev)
@@ -308,6 +314,10 @@ func VH_Revisions(a []int) {
 	}
 	w.sets = []*apps.StatefulSet{set}
 	w.apiSets = []*apps.StatefulSet{set.DeepCopy()}
+	if opts&8 != 0 {
+		// the write that renumbers a re-used revision may be rejected once with a conflict
+		w.faultBudget, w.faultKind, w.faultOnly = 1, 1, "rev.update"
+	}
 	ssc := vNewController(w)
 	err := ssc.control.UpdateStatefulSet(set.DeepCopy(), nil)
 
@@ -360,7 +370,9 @@ func VH_Revisions(a []int) {
 				}
 			}
 		case "rev.update":
-			updates++
+			if !op.failed {
+				updates++
+			}
 			if equal != nil {
 				sym.Assert(op.name == equal.rev.Name, "C08", "a rollback re-uses the newest equal revision")
 				sym.Assert(op.rev.Revision > newest.num, "C08", "a re-used revision is renumbered above all others")
@@ -390,6 +402,19 @@ func VH_Revisions(a []int) {
 	}
 	if opts&4 == 0 {
 		sym.Assert(others == 0, "C08", "no revision is deleted or patched here")
+	}
+	if err == nil && equal != nil && equal != newest {
+		// the state a successful rollback leaves on the server, however many attempts it took
+		for _, r := range w.apiRevs {
+			if r.Name != equal.rev.Name {
+				continue
+			}
+			for _, o := range w.apiRevs {
+				if o.Name != r.Name {
+					sym.Assert(r.Revision > o.Revision, "C08", "after a rollback the re-used revision carries the highest number")
+				}
+			}
+		}
 	}
 	if collide {
 		sym.Assert(!squatWritten, "C08", "a colliding revision of different data is never overwritten")
